@@ -58,6 +58,8 @@ def configs(tier, seed):
                     if tier != "quick" and len(BASES[bi]) == 4 and (ti + di + ri) % 3 != 0:
                         continue
                     out.append({"basis": bi, "types": list(tp), "dens": dens, "tr": tr, "tier": tier})
+    for tr in TRANS:  # upper end of the point-count range
+        out.append({"basis": 2, "types": ["spherical", "cartesian"], "dens": "indef", "tr": tr, "tier": tier, "npts": 30})
     return out
 
 
@@ -70,7 +72,7 @@ def build(cfg):
         shells.append(RefShell(l, cs[i], exps, al.coeffs(K, M, rot=i), cfg["types"][i]))
     c0 = np.array(cs[0])
     pts = [c0, c0 + np.array([0.0, 0.6, -0.3]), c0 + np.array([0.0, 0.0, 0.9])]
-    pts += [np.array(hvec("dens-pt%d" % i, 3, -2.0, 2.0)) for i in range(5)]
+    pts += [np.array(hvec("dens-pt%d" % i, 3, -2.0, 2.0)) for i in range(5 if not cfg.get("npts") else cfg["npts"] - 3)]
     return shells, np.array(pts)
 
 
